@@ -7,6 +7,8 @@ a crossed edge is the edge opposite the vertex in the face whose wedge contains 
 import Spade.Algo.LineIter
 import Spade.Proofs.LinkInv.Base
 import Spade.Properties.C06
+import Mathlib.Tactic.LinearCombination
+import Mathlib.Tactic.Linarith
 namespace Spade
 namespace St
 open Generated
@@ -45,10 +47,60 @@ theorem LInv.ccw_cw (hs : LInv s) {e : Nat} (he : e < s.nE) : s.ccw (s.cwE e) = 
 theorem sideE_eq (s : St) (e : Nat) (q : Pt) : s.sideE e q = orient (s.A e) (s.B e) q := by
   unfold sideE; exact C06_side_query_eq _ _ _
 
-theorem notBefore_iff (s : St) (e : Nat) (q : Pt) :
-    s.notBefore e q = true ↔ 0 ≤ dotFrom (s.A e) (s.B e) q := by
-  unfold notBefore is_before_edge project_point
-  simp [FL.lt, FL.zero]
+/-- the coordinate comparison of `is_collinear_point_before_segment` decides the sign of the
+projection for a point on the supporting line: "not before" gives a non-negative projection
+factor (what `project_point(..).is_before_edge()` tested before fix F26) -/
+theorem notBefore_dot (s : St) (e : Nat) (q : Pt) (hcol : orient (s.A e) (s.B e) q = 0)
+    (h : s.notBefore e q = true) : 0 ≤ dotFrom (s.A e) (s.B e) q := by
+  unfold notBefore is_collinear_point_before_segment at h
+  generalize s.A e = a at *
+  generalize s.B e = b at *
+  unfold orient at hcol
+  unfold dotFrom
+  simp only [FL.lt, FL.gt] at h
+  by_cases h1 : a.x < b.x
+  · simp only [h1, decide_true, if_true, Bool.not_eq_true', decide_eq_false_iff_not, Int.not_lt] at h
+    -- (b.x-a.x) * dot = (q.x-a.x) * |b-a|²
+    have key : (b.x - a.x) * ((q.x - a.x) * (b.x - a.x) + (q.y - a.y) * (b.y - a.y)) =
+        (q.x - a.x) * ((b.x - a.x) * (b.x - a.x) + (b.y - a.y) * (b.y - a.y)) := by
+      have : (b.x - a.x) * (q.y - a.y) = (b.y - a.y) * (q.x - a.x) := by linarith
+      linear_combination (b.y - a.y) * this
+    have hp : 0 ≤ (q.x - a.x) * ((b.x - a.x) * (b.x - a.x) + (b.y - a.y) * (b.y - a.y)) :=
+      Int.mul_nonneg (by omega) (by nlinarith [mul_self_nonneg (b.x - a.x), mul_self_nonneg (b.y - a.y)])
+    rw [← key] at hp
+    by_contra hneg
+    have : (b.x - a.x) * ((q.x - a.x) * (b.x - a.x) + (q.y - a.y) * (b.y - a.y)) < 0 :=
+      Int.mul_neg_of_pos_of_neg (by omega) (by omega)
+    omega
+  · by_cases h2 : b.x < a.x
+    · have h1' : ¬ (a.x < b.x) := h1
+      simp only [h1', decide_false, Bool.false_eq_true, if_false, h2, decide_true, if_true,
+        Bool.not_eq_true', decide_eq_false_iff_not, Int.not_lt] at h
+      have key : (a.x - b.x) * ((q.x - a.x) * (b.x - a.x) + (q.y - a.y) * (b.y - a.y)) =
+          (a.x - q.x) * ((b.x - a.x) * (b.x - a.x) + (b.y - a.y) * (b.y - a.y)) := by
+        have : (b.x - a.x) * (q.y - a.y) = (b.y - a.y) * (q.x - a.x) := by linarith
+        linear_combination (-(b.y - a.y)) * this
+      have hp : 0 ≤ (a.x - q.x) * ((b.x - a.x) * (b.x - a.x) + (b.y - a.y) * (b.y - a.y)) :=
+        Int.mul_nonneg (by omega) (by nlinarith [mul_self_nonneg (b.x - a.x), mul_self_nonneg (b.y - a.y)])
+      rw [← key] at hp
+      by_contra hneg
+      have : (a.x - b.x) * ((q.x - a.x) * (b.x - a.x) + (q.y - a.y) * (b.y - a.y)) < 0 :=
+        Int.mul_neg_of_pos_of_neg (by omega) (by omega)
+      omega
+    · have hx : b.x = a.x := by omega
+      simp only [h1, decide_false, Bool.false_eq_true, if_false, h2] at h
+      rw [hx] at hcol ⊢
+      simp only [Int.sub_self, Int.zero_mul, Int.mul_zero, Int.zero_add, Int.zero_sub] at hcol ⊢
+      by_cases h3 : a.y < b.y
+      · simp only [h3, decide_true, if_true, Bool.not_eq_true', decide_eq_false_iff_not, Int.not_lt] at h
+        exact Int.mul_nonneg (by omega) (by omega)
+      · simp only [h3, decide_false, Bool.false_eq_true, if_false, Bool.not_eq_true',
+          decide_eq_false_iff_not, Int.not_lt] at h
+        by_cases h4 : b.y = a.y
+        · rw [h4]; simp
+        · have : (q.y - a.y) * (b.y - a.y) = (a.y - q.y) * (a.y - b.y) := by ring
+          rw [this]
+          exact Int.mul_nonneg (by omega) (by omega)
 
 /-- what an answer of the vertex trace means -/
 def VOutOK (s : St) (v : Nat) (q : Pt) : VOut → Prop
@@ -78,7 +130,8 @@ theorem traceVertexLoop_ccw_sound (hs : LInv s) (v : Nat) (q : Pt) (fuel : Nat) 
     by_cases hov : (is_on_line curq && s.notBefore cur q) = true
     · rw [if_pos hov]
       simp only [Bool.and_eq_true] at hov
-      exact ⟨hc, ho, by rw [← hq]; exact (isOnLine_iff _).mp hov.1, (notBefore_iff s cur q).mp hov.2⟩
+      have hcol : orient (s.A cur) (s.B cur) q = 0 := by rw [← hq]; exact (isOnLine_iff _).mp hov.1
+      exact ⟨hc, ho, hcol, notBefore_dot s cur q hcol hov.2⟩
     · rw [if_neg hov]
       have hnlt := hs.ccw_lt hc
       have hno : s.org (s.ccw cur) = v := by rw [hs.org_ccw hc]; exact ho
@@ -87,7 +140,7 @@ theorem traceVertexLoop_ccw_sound (hs : LInv s) (v : Nat) (q : Pt) (fuel : Nat) 
         simp only [Bool.and_eq_true] at hov2
         have := (isOnLine_iff _).mp hov2.1
         rw [sideE_eq] at this
-        exact ⟨hnlt, hno, this, (notBefore_iff s _ q).mp hov2.2⟩
+        exact ⟨hnlt, hno, this, notBefore_dot s _ q this hov2.2⟩
       · rw [if_neg hov2]
         by_cases hf : s.fc cur = 0
         · rw [if_pos hf]; trivial
@@ -120,7 +173,8 @@ theorem traceVertexLoop_cw_sound (hs : LInv s) (v : Nat) (q : Pt) (fuel : Nat) :
     by_cases hov : (is_on_line curq && s.notBefore cur q) = true
     · rw [if_pos hov]
       simp only [Bool.and_eq_true] at hov
-      exact ⟨hc, ho, by rw [← hq]; exact (isOnLine_iff _).mp hov.1, (notBefore_iff s cur q).mp hov.2⟩
+      have hcol : orient (s.A cur) (s.B cur) q = 0 := by rw [← hq]; exact (isOnLine_iff _).mp hov.1
+      exact ⟨hc, ho, hcol, notBefore_dot s cur q hcol hov.2⟩
     · rw [if_neg hov]
       have hnlt := hs.cw_lt hc
       have hno : s.org (s.cwE cur) = v := by rw [hs.org_cw hc]; exact ho
@@ -129,7 +183,7 @@ theorem traceVertexLoop_cw_sound (hs : LInv s) (v : Nat) (q : Pt) (fuel : Nat) :
         simp only [Bool.and_eq_true] at hov2
         have := (isOnLine_iff _).mp hov2.1
         rw [sideE_eq] at this
-        exact ⟨hnlt, hno, this, (notBefore_iff s _ q).mp hov2.2⟩
+        exact ⟨hnlt, hno, this, notBefore_dot s _ q this hov2.2⟩
       · rw [if_neg hov2]
         by_cases hf : s.fc (s.cwE cur) = 0
         · rw [if_pos hf]; trivial
